@@ -404,7 +404,9 @@ class CSRStorage(_CompoundCSR):
     def do_finalize(self, busword, ordering):
         nwords = (self.size + busword - 1)//busword
         if nwords > 1 and self.atomic_write:
-            backstore = Signal(self.size - busword, name=self.name + "_backstore")
+            # Words written before the last address are held in the backstore.
+            backstore_size = (self.size - busword) if ordering == "big" else (nwords - 1)*busword
+            backstore = Signal(backstore_size, name=self.name + "_backstore")
         for i in reversed(range(nwords)) if ordering == "big" else range(nwords):
             nbits = min(self.size - i*busword, busword)
             sc    = CSR(nbits, self.name + str(i) if nwords else self.name)
@@ -415,10 +417,18 @@ class CSRStorage(_CompoundCSR):
             self.comb += sc.w.eq(self.storage[lo:hi])
             # write
             if nwords > 1 and self.atomic_write:
-                if i:
-                    self.sync += If(sc.re, backstore[lo-busword:hi-busword].eq(sc.r))
+                if ordering == "big":
+                    # Last address is the least significant word.
+                    if i:
+                        self.sync += If(sc.re, backstore[lo-busword:hi-busword].eq(sc.r))
+                    else:
+                        self.sync += If(sc.re, self.storage.eq(Cat(sc.r, backstore)))
                 else:
-                    self.sync += If(sc.re, self.storage.eq(Cat(sc.r, backstore)))
+                    # Last address is the most significant word.
+                    if i != (nwords - 1):
+                        self.sync += If(sc.re, backstore[lo:hi].eq(sc.r))
+                    else:
+                        self.sync += If(sc.re, self.storage.eq(Cat(backstore, sc.r)))
             else:
                 self.sync += If(sc.re, self.storage[lo:hi].eq(sc.r))
         self.sync += self.re.eq(sc.re)
